@@ -188,7 +188,7 @@ func c09Record(dir string, cfg c09Config) (b0 []byte, ops []lite.VfsOp, endDB, e
 }
 
 func runC09(r *ev.Run) {
-	r.Rule = "real SQLite write transactions (one-row autocommit update, small update, spilling bulk insert with cache_size=1, file-growing insert, delete with auto-vacuum truncation, schema change, spilled rollback, the first transaction ever on a file of 0 bytes, a writer with synchronous=OFF whose journal header carries the record count 0xFFFFFFFF) recorded under a logging VFS, journal modes DELETE/TRUNCATE/PERSIST, page sizes {512 (+1024, 4096 thorough)}, sector sizes {512, 4096}; for the log of N file operations: every prefix 0..N (the writer process dies before operation k; completed system calls persist) and for every write its torn variants (first 512 bytes, first half rounded to 512; for small writes every 4-byte prefix); oracle: real SQLite opens a copy of the pair, performs its own recovery and dumps it; sqlittle on the original either fails or returns exactly that dump; every image is read by a fresh handle (operation boundaries: also one that opens the file through a symbolic link, by a relative name, and through `link/../name` behind a symbolically linked directory) and by handles opened before the writer started (one of them by a relative name in a process that changes its working directory afterwards): one that read everything, one that was only opened, one that only listed the tables, (operation boundaries) one that was refused a read once while another process held EXCLUSIVE, and a fresh handle while another process is in the middle of a read; from the commit point on (journal deleted / truncated / header zeroed) and before the first operation it must succeed. conformance: replaying the whole log reproduces the files the real run left behind, byte for byte. non-trivial = images with a journal on disk"
+	r.Rule = "real SQLite write transactions (one-row autocommit update, small update, spilling bulk insert with cache_size=1, file-growing insert, delete with auto-vacuum truncation, schema change, spilled rollback, the first transaction ever on a file of 0 bytes, a writer with synchronous=OFF whose journal header carries the record count 0xFFFFFFFF) recorded under a logging VFS, journal modes DELETE/TRUNCATE/PERSIST, page sizes {512 (+1024, 4096 thorough)}, sector sizes {512, 4096}; for the log of N file operations: every prefix 0..N (the writer process dies before operation k; completed system calls persist) and for every write its torn variants (first 512 bytes, first half rounded to 512; for small writes every 4-byte prefix); oracle: real SQLite opens a copy of the pair, performs its own recovery and dumps it; sqlittle on the original either fails or returns exactly that dump; every image is read by a fresh handle (operation boundaries: also one that opens the file through a symbolic link, by a relative name, and through `link/../name` behind a symbolically linked directory) and by handles opened before the writer started (one of them by a relative name in a process that changes its working directory afterwards, one that read next to a cold journal file which was removed before the dead writer made its own): one that read everything, one that was only opened, one that only listed the tables, (operation boundaries) one that was refused a read once while another process held EXCLUSIVE, and a fresh handle while another process is in the middle of a read; from the commit point on (journal deleted / truncated / header zeroed) and before the first operation it must succeed. conformance: replaying the whole log reproduces the files the real run left behind, byte for byte. non-trivial = images with a journal on disk"
 	dir := ev.TmpDir("c09")
 	defer os.RemoveAll(dir)
 	c09Peers = make(chan *Peer, 8)
@@ -327,6 +327,8 @@ func runC09(r *ev.Run) {
 				for _, kind := range []string{"fresh-by-symlink", "fresh-by-relative-name", "fresh-by-dotdot-behind-a-symlinked-directory"} {
 					c09ImageKind(r, dir, fmt.Sprintf("c%d-n%d", ci, ii), cfg, &f, desc, mustSucceed, im.k, opsS, nil, kind)
 				}
+				// ... or read next to a cold journal file that has been removed since (the dead writer's journal is another file of the same name)
+				c09ImageKind(r, dir, fmt.Sprintf("c%d-j%d", ci, ii), cfg, &f, desc, mustSucceed, im.k, opsS, b0, "saw-a-cold-journal")
 				// ... or a handle opened by a relative name in a process that changes its working directory afterwards
 				c09ImageKind(r, dir, fmt.Sprintf("c%d-w%d", ci, ii), cfg, &f, desc, mustSucceed, im.k, opsS, b0, "relative-name-then-chdir")
 				// ... or was refused a read once (another process held the EXCLUSIVE lock), then read fine
@@ -430,6 +432,16 @@ func c09ImageKind(r *ev.Run, dir, name string, cfg c09Config, f *c09Files, desc 
 			}
 		}
 		switch kind {
+		case "saw-a-cold-journal":
+			// a journal file left behind by an earlier PERSIST / TRUNCATE connection lies there, cold, while the handle
+			// reads; a later commit in DELETE mode removes it; the dead writer's journal is a NEW file of that name
+			os.WriteFile(orig+"-journal", make([]byte, 1024), 0o644)
+			_, err := LittleDump(long.H, long.D)
+			os.Remove(orig + "-journal")
+			if err != nil {
+				r.Harness("C09 read next to a cold journal: %v", err)
+				return
+			}
 		case "long-lived":
 			if _, err := LittleDump(long.H, long.D); err != nil {
 				r.Harness("C09 read before: %v", err)
